@@ -13,7 +13,7 @@ CONSTANTS
     AlertCloseOnErr = TRUE
     HookNeedsTmLock = FALSE
 INVARIANTS
-    NoAcceptedLoss
+    TrNoLoss
     NothingInvented
     QuietAfterCensus
 CONSTRAINT HW
